@@ -183,7 +183,7 @@ static void print_summary() {
 
 static void viol_sink(const char *sig, const char *msg) {
     std::string s = "VIOL {\"sig\":\"" + mj::esc(sig) + "\",\"msg\":\"" + mj::esc(msg) + "\",\"seed\":" + std::to_string(g_cur_seed) +
-                    ",\"idx\":" + std::to_string(g_cur_idx) + ",\"steps\":" + std::to_string(sim::steps()) + ",\"ehash\":\"" + std::to_string(sim::current_event_hash()) + "\",\"events\":" + events_text(60);
+                    ",\"idx\":" + std::to_string(g_cur_idx) + ",\"steps\":" + std::to_string(sim::steps()) + ",\"ehash\":\"" + std::to_string(sim::current_event_hash()) + "\",\"events\":" + events_text(200);
     if (g_cur_plan) s += ",\"plan\":" + plan_json(*g_cur_plan, true, true);
     s += "}";
     puts(s.c_str());
@@ -195,7 +195,7 @@ static void viol_sink(const char *sig, const char *msg) {
 static void crash_line(const char *what) {
     // async-signal-unsafe but we are dying anyway
     std::string s = std::string("CRASH {\"sig\":\"") + what + "\",\"seed\":" + std::to_string(g_cur_seed) + ",\"idx\":" +
-                    std::to_string(g_cur_idx) + ",\"events\":" + events_text(60);
+                    std::to_string(g_cur_idx) + ",\"events\":" + events_text(200);
     if (g_cur_plan) s += ",\"plan\":" + plan_json(*g_cur_plan, true, true);
     s += "}";
     puts(s.c_str());
